@@ -35,8 +35,12 @@ let dispatch fn args = match fn, args with
     let cs = List.map bytes_of_hex (split ',' cands) in
     let h = if hist = "" then [] else List.map parse_op (split ';' hist) in
     let rep = run_report prep Plain h cs in
-    String.concat "|" (List.map (fun (r, pr) -> hex_of_n r ^ "=" ^ String.concat "," (List.map hex_of_n pr)) rep)
+    let pc c = match int_of_n c with 0 -> "p" | 1 | 2 -> "o" | k -> string_of_int k in
+    String.concat "|" (List.map (fun (r, pr) -> hex_of_n r ^ "=" ^ String.concat "," (List.map pc pr)) rep)
   | "setup_key", [nb; ow; us; pk; be; hp] ->
-    hex_of_n (outcome_code (setup_key (bool_of_str nb) (vres_of ow) (vres_of us) (bool_of_str pk) (bool_of_str be) (bool_of_str hp)))
+    (match setup_key (bool_of_str nb) (vres_of ow) (vres_of us) (bool_of_str pk) (bool_of_str be) (bool_of_str hp) with
+     | OpenOwner | OpenUser -> "open" | EOwnerRequired -> "owner-required" | EWrongPassword -> "wrong-password"
+     | EInvalidPerms -> "invalid-perms" | EPermDenied -> "permission-denied" | EValidate -> "validate"
+     | ENotEncrypted -> "not-encrypted" | EEncrypted -> "encrypted")
   | _ -> failwith ("unknown function " ^ fn)
 let () = main dispatch
